@@ -7,7 +7,7 @@ for f in sys.argv[1:]:
         continue
     cur = None
     for line in open(f):
-        m = re.match(r'^(C\d\d) rc=(\d+) (\d+)s :: (.*)$', line.strip())
+        m = re.match(r'^(C\d\d) rc=(\d+) (\d+)s ::\s?(.*)$', line.strip())
         if m:
             cid, rc, secs, rest = m.group(1), int(m.group(2)), int(m.group(3)), m.group(4)
             mm = re.search(r'thorough: (\w+); obligations (\d+)/(\d+) discharged, paths (\d+), validated (\d+)', rest)
